@@ -10,7 +10,7 @@
 From Coq Require Import List Arith Bool ZArith QArith Qcanon.
 Import ListNotations.
 Local Open Scope nat_scope.
-From Flodym Require Import Base.ND Np.Einsum Model.Dims Model.Array Model.Instances Model.DF Model.Detect Proofs.DFProofs Proofs.DetectProofs Proofs.ImportSpec.
+From Flodym Require Import Base.ND Np.Einsum Model.Dims Model.Array Model.Instances Model.DF Model.Detect Proofs.DFProofs Proofs.DetectProofs Proofs.ImportSpec Proofs.DetectWide.
 From Coq Require Import Permutation.
 
 (* to_df: one row per entry, in row-major order, each under its true labels; sparse: exactly the non-zero ones *)
@@ -121,4 +121,40 @@ Example ex_C11_scrambled_rows :
   import_rows nat 0 true 0 [mk_dim 116 0 [2000; 2005]; mk_dim 114 1 [30; 31]] false false false false
     [mk_row nat [2005; 30] (Some 3); mk_row nat [2000; 31] (Some 2); mk_row nat [2005; 31] (Some 4); mk_row nat [2000; 30] (Some 1)]
   = Ok [1; 2; 3; 4].
+Proof. vm_compute. reflexivity. Qed.
+
+(* layer 2, wide layout: the table of to_df(dim_to_columns = D, index = False) — one column per other dimension labelled by its
+   name, one column per item of D labelled by the item — is recognised as wide, melted, and read back into the identical
+   array, for all values (also values that coincide with items), D at any position among the dimensions *)
+Theorem C11_to_df_wide_table_is_read_back :
+  forall (pre post : list tdim) (wd : tdim) (venc : Qc -> ent) (a : fQ) (lo hi : Z),
+  wide_ok pre post wd venc -> adims a = map td (pre ++ wd :: post) ->
+  items_unique (map td (pre ++ wd :: post)) -> length (avals a) = size (dshape (map td (pre ++ wd :: post))) ->
+  convert true lo hi (pre ++ wd :: post) false false (wide_table pre post wd venc a) = OValues (avals a).
+Proof. exact detect_roundtrip_wide. Qed.
+Print Assumptions C11_to_df_wide_table_is_read_back.
+
+(* non-vacuity of wide_ok: time (int) kept as a column, region (text) spread over the columns *)
+Example ex_C11_wide_ok :
+  wide_ok [mk_tdim (mk_dim 116 0 [2000; 2005]) 20 22 TInt] [] (mk_tdim (mk_dim 114 1 [30; 31; 32]) 21 23 TStr)
+          (fun q => mk_ent 99 None 99 (VNum q)).
+Proof.
+  constructor.
+  - simpl. repeat constructor; simpl; intuition discriminate.
+  - intros d d' [<-|[<-|[]]] [<-|[<-|[]]]; simpl; discriminate.
+  - intros d d' [<-|[<-|[]]] [<-|[<-|[]]]; simpl; intuition discriminate.
+  - intros it d Hit [<-|[<-|[]]]; simpl in *; intuition (subst; discriminate).
+  - simpl. repeat constructor; simpl; intuition discriminate.
+  - discriminate.
+  - intros d [<-|[<-|[]]] H; [vm_compute in H; discriminate | reflexivity].
+  - reflexivity.
+Qed.
+
+(* and the model run on a concrete wide table: 2 x 3 entries, the second item column holding the values 0 and 1 *)
+Example ex_C11_wide_table_read_back :
+  convert true 1700 2300 [mk_tdim (mk_dim 116 0 [2000; 2005]) 20 22 TInt; mk_tdim (mk_dim 114 1 [30; 31; 32]) 21 23 TStr] false false
+    (wide_table [mk_tdim (mk_dim 116 0 [2000; 2005]) 20 22 TInt] [] (mk_tdim (mk_dim 114 1 [30; 31; 32]) 21 23 TStr)
+                (fun q => mk_ent 99 None 99 (VNum q))
+                (mk_farr [mk_dim 116 0 [2000; 2005]; mk_dim 114 1 [30; 31; 32]] [Q2Qc 1; Q2Qc 0; Q2Qc 3; Q2Qc 4; Q2Qc 1; Q2Qc 6]))
+  = OValues [Q2Qc 1; Q2Qc 0; Q2Qc 3; Q2Qc 4; Q2Qc 1; Q2Qc 6].
 Proof. vm_compute. reflexivity. Qed.
